@@ -491,6 +491,10 @@ def check(prog, rep):
         duration_conservation(prog, rep, ol)
     chunk_rule(prog, rep)
     small_functions(prog, rep)
+    # the transform's own copies (deepcopy of events) separate its output from its input only if Event keeps the default copy protocol
+    from ..rules_own import copy_protocol
+
+    copy_protocol(prog, rep)
 
 
 VARIANTS = [
